@@ -94,6 +94,90 @@ type Gen struct {
 	provPool []int64
 	nIssued  int
 	exportAt int
+	// governance parameter changes (op kind setparams): decided from a SEPARATE stream so that the
+	// histories without a change (about two thirds) are exactly the fixed-parameter histories they
+	// were before the op kind existed
+	prng      *rand.Rand
+	paramHist bool
+}
+
+// planParams decides whether this history contains parameter changes (about one history in three).
+func (g *Gen) planParams(histSeed int64) {
+	g.prng = rand.New(rand.NewSource(histSeed ^ 0x5e7a9a4a))
+	g.paramHist = g.prng.Intn(3) == 0
+}
+
+var (
+	legalTaxes   = []string{"0", "0.1", "0.05", "0.5", "0.999999999999999999", "0.333333333333333333", "0.000000000000000001"}
+	legalSlashes = []string{"0", "0.001", "0.5", "1", "0.999999999999999999", "0.25", "0.000000000000000001"}
+	legalDurs    = []time.Duration{time.Second, 4 * time.Second, 5 * time.Second, 10 * time.Second, 15 * time.Second, 1, 300 * time.Millisecond}
+)
+
+// setParams proposes a new parameter set, starting from the one in force.
+//   - maximum request timeout: unchanged, smaller (down to 1) or larger. Lowering it is legal and leaves
+//     stored bindings (QoS) and contexts (timeout) above the new maximum: the module grandfathers them.
+//   - minimum deposit multiple and minimum deposit: UNCHANGED OR SMALLER, never larger. The module does not
+//     revisit stored bindings when its parameters change, so after a raise an available binding made at
+//     the old minimum holds less than the new one: C14 read "under the parameters in force" is then false
+//     on the unchanged code BY DESIGN (Coq: C14_tighten_min_deposit_refuted). Properties quantify over a
+//     legal parameter set; the generator stays inside the changes the statement survives (`relaxes`).
+//   - tax, slash fraction: any legal value; arbitration and complaint limits: any positive duration.
+//   - about one proposal in seven is ILLEGAL in exactly one field and must be refused without a trace.
+func (g *Gen) setParams() *Op {
+	rng := g.prng
+	c := g.r.cfg
+	switch rng.Intn(3) {
+	case 1:
+		if c.MaxTimeout > 1 {
+			c.MaxTimeout = 1 + rng.Int63n(c.MaxTimeout-1)
+		}
+	case 2:
+		c.MaxTimeout += 1 + rng.Int63n(4)
+		if rng.Intn(8) == 0 {
+			c.MaxTimeout = 100 + rng.Int63n(100)
+		}
+	}
+	if rng.Intn(2) == 0 && c.Multiple > 1 {
+		c.Multiple = 1 + rng.Int63n(c.Multiple)
+	}
+	if rng.Intn(2) == 0 && c.MinDeposit > 0 {
+		c.MinDeposit = rng.Int63n(c.MinDeposit + 1)
+	}
+	if rng.Intn(2) == 0 {
+		c.Tax = legalTaxes[rng.Intn(len(legalTaxes))]
+	}
+	if rng.Intn(2) == 0 {
+		c.Slash = legalSlashes[rng.Intn(len(legalSlashes))]
+	}
+	if rng.Intn(3) == 0 {
+		c.Arb = legalDurs[rng.Intn(len(legalDurs))]
+	}
+	if rng.Intn(3) == 0 {
+		c.Compl = legalDurs[rng.Intn(len(legalDurs))]
+	}
+	if rng.Intn(7) == 0 {
+		switch rng.Intn(9) {
+		case 0:
+			c.Tax = "1"
+		case 1:
+			c.Slash = "1.000000000000000001"
+		case 2:
+			c.Multiple = 0
+		case 3:
+			c.MaxTimeout = 0
+		case 4:
+			c.Arb = 0
+		case 5:
+			c.Compl = -time.Second
+		case 6:
+			c.MinDeposit = -1
+		case 7:
+			c.Tax = "-0.1"
+		default:
+			c.MaxTimeout = -3
+		}
+	}
+	return &Op{Kind: "setparams", P: &c}
 }
 
 var providerAtoms20 = []int64{121, 126, 127, 101, 128}
@@ -300,6 +384,10 @@ func (g *Gen) next0() *Op {
 		if g.nIssued-1 == g.exportAt || g.chance(p) {
 			return &Op{Kind: "export"}
 		}
+	}
+	// governance parameter change: about one op in twenty of a history that has them (one in sixty overall)
+	if g.paramHist && g.prng.Intn(20) == 0 {
+		return g.setParams()
 	}
 	if g.chance(g.tempo) {
 		dts := []int64{0, int64(5 * time.Second), int64(5 * time.Second), int64(r.cfg.Arb + r.cfg.Compl), int64(time.Second),
